@@ -225,7 +225,13 @@ def pred_failures(cases, impl, model, pred):
         n_eval += 1
         if kv[pred] == "F":
             parts = cases[cid].split("\t")
-            src, text = C.unhex(parts[1]), C.unhex(parts[2])
+
+            def _un(x):
+                try:
+                    return C.unhex(x)
+                except Exception:
+                    return b" | ".join(_un(y) if y.startswith("x") else y.encode() for y in x.split(",")) if "," in x else x.encode()
+            src, text = _un(parts[1]), _un(parts[2] if len(parts) > 2 else "")
             ires = C.fields(impl.get(cid, "")).get("RES", "?")
             out.append(dict(id=cid, src=src, text=text, impl=ires, model=f.get("RES", "?"),
                             what=f"the implementation's result fails the executable predicate Spec.{pred}"))
